@@ -9,7 +9,7 @@
 use crate::model::gen_unit_vec;
 use crate::srv::*;
 use crate::util::*;
-use kyrodb_engine::proto::{metadata_filter::FilterType, ExactMatch, InMatch, InsertRequest, MetadataFilter, NotFilter, OrFilter, AndFilter, SearchRequest};
+use kyrodb_engine::proto::{metadata_filter::FilterType, range_match, AndFilter, ExactMatch, InMatch, InsertRequest, MetadataFilter, NotFilter, OrFilter, RangeMatch, SearchRequest};
 use serde_json::{json, Value};
 use std::collections::{BTreeMap, HashMap};
 
@@ -82,6 +82,70 @@ fn filter_class(class: &str) -> MetadataFilter {
         _ => MetadataFilter { filter_type: Some(FilterType::Exact(ExactMatch { key: "tag".into(), value: "a".into() })) },
     }
 }
+/// random filter tree whose leaves and inner nodes may be malformed (empty oneof, empty lists,
+/// NOT without operand, range without bound, empty keys)
+fn gen_filter_tree(rng: &mut Rng, depth: usize) -> MetadataFilter {
+    let leaf = |rng: &mut Rng| -> Option<FilterType> {
+        match rng.below(7) {
+            0 => None,
+            1 => Some(FilterType::Exact(ExactMatch { key: "tag".into(), value: "a".into() })),
+            2 => Some(FilterType::Exact(ExactMatch { key: String::new(), value: String::new() })),
+            3 => Some(FilterType::InMatch(InMatch { key: "tag".into(), values: vec![] })),
+            4 => Some(FilterType::Range(RangeMatch { key: "tag".into(), bound: None })),
+            5 => Some(FilterType::Range(RangeMatch { key: "n".into(), bound: Some(range_match::Bound::Gte(["1", "", "nan", "+inf", "1e999"][rng.usize_below(5)].to_string())) })),
+            _ => Some(FilterType::InMatch(InMatch { key: String::new(), values: vec![String::new()] })),
+        }
+    };
+    if depth == 0 || rng.chance(0.3) {
+        return MetadataFilter { filter_type: leaf(rng) };
+    }
+    let n = rng.below(4) as usize;
+    let ft = match rng.below(4) {
+        0 => FilterType::AndFilter(AndFilter { filters: (0..n).map(|_| gen_filter_tree(rng, depth - 1)).collect() }),
+        1 => FilterType::OrFilter(OrFilter { filters: (0..n).map(|_| gen_filter_tree(rng, depth - 1)).collect() }),
+        2 => FilterType::NotFilter(Box::new(NotFilter { filter: None })),
+        _ => FilterType::NotFilter(Box::new(NotFilter { filter: Some(Box::new(gen_filter_tree(rng, depth - 1))) })),
+    };
+    MetadataFilter { filter_type: Some(ft) }
+}
+
+/// every filter shape of depth <= 2 over {no filter_type, exact, empty IN list, range without bound} x
+/// {AND, OR (arity 0..2), NOT (with / without operand)}: ~570 small, mostly malformed trees
+fn enum_filter_shapes() -> Vec<MetadataFilter> {
+    let mk = |ft: Option<FilterType>| MetadataFilter { filter_type: ft };
+    let leaves: Vec<MetadataFilter> = vec![
+        mk(None),
+        mk(Some(FilterType::Exact(ExactMatch { key: "tag".into(), value: "a".into() }))),
+        mk(Some(FilterType::InMatch(InMatch { key: "tag".into(), values: vec![] }))),
+        mk(Some(FilterType::Range(RangeMatch { key: "tag".into(), bound: None }))),
+    ];
+    let and = |v: Vec<MetadataFilter>| mk(Some(FilterType::AndFilter(AndFilter { filters: v })));
+    let or = |v: Vec<MetadataFilter>| mk(Some(FilterType::OrFilter(OrFilter { filters: v })));
+    let not = |f: Option<MetadataFilter>| mk(Some(FilterType::NotFilter(Box::new(NotFilter { filter: f.map(Box::new) }))));
+    let mut d1: Vec<MetadataFilter> = vec![and(vec![]), or(vec![]), not(None)];
+    for l in &leaves {
+        d1.push(not(Some(l.clone())));
+        d1.push(and(vec![l.clone()]));
+        d1.push(or(vec![l.clone()]));
+        for l2 in &leaves {
+            d1.push(and(vec![l.clone(), l2.clone()]));
+            d1.push(or(vec![l.clone(), l2.clone()]));
+        }
+    }
+    let mut out = leaves.clone();
+    out.extend(d1.iter().cloned());
+    for f in &d1 {
+        out.push(not(Some(f.clone())));
+        out.push(and(vec![f.clone()]));
+        out.push(or(vec![f.clone()]));
+        for l in &leaves {
+            out.push(and(vec![f.clone(), l.clone()]));
+            out.push(or(vec![l.clone(), f.clone()]));
+        }
+    }
+    out
+}
+
 const FILTER_CLASSES: [&str; 11] = ["exact", "empty-oneof", "not-without-operand", "empty-and", "empty-or", "depth-50", "depth-99", "depth-100", "depth-101", "depth-200", "in-100k"];
 
 pub fn run(args: &Args) -> Out {
@@ -116,18 +180,23 @@ fn run_case(seed: u64, idx: usize, bin: &str, rt: &std::sync::Arc<tokio::runtime
     let cfg = SrvCfg {
         dim: DIM,
         distance,
-        tenants: vec![TenantSpec { id: "solo".into(), max_vectors: 100_000, max_qps: 0, enabled: true, admin: false }],
+        // two tenants: whichever of them gets a tenant index >= 1 exercises the id mapping with a prefix
+        tenants: vec![
+            TenantSpec { id: "first".into(), max_vectors: 100_000, max_qps: 0, enabled: true, admin: false },
+            TenantSpec { id: "solo".into(), max_vectors: 100_000, max_qps: 0, enabled: true, admin: false },
+        ],
         fsync: "data_only",
         snapshot_interval: *rng.pick(&[7u64, 1000]),
         max_wal: *rng.pick(&[2048u64, 1 << 20]),
         ..Default::default()
     };
+    let who = if idx % 2 == 0 { "solo" } else { "first" };
     let mut srv = Srv::new(cfg, bin, rt.clone());
     if let Err(e) = srv.start() {
         out.inconclusive(format!("server start failed: {}", e));
         return;
     }
-    let mut cl = match srv.tenant_client("solo") {
+    let mut cl = match srv.tenant_client(who) {
         Ok(c) => c,
         Err(e) => {
             out.inconclusive(e);
@@ -162,8 +231,27 @@ fn run_case(seed: u64, idx: usize, bin: &str, rt: &std::sync::Arc<tokio::runtime
                 Err(s) => {
                     refused += 1;
                     let transport = matches!(s.code(), tonic::Code::Unavailable | tonic::Code::Unknown | tonic::Code::Cancelled | tonic::Code::DeadlineExceeded);
-                    if transport && !srv.alive() {
+                    // a dying process closes its sockets before it can be reaped: give it a moment
+                    let mut dead = false;
+                    if transport {
+                        for _ in 0..25 {
+                            if !srv.alive() {
+                                dead = true;
+                                break;
+                            }
+                            std::thread::sleep(std::time::Duration::from_millis(20));
+                        }
+                    }
+                    if dead {
                         viol!(format!("server-died|{}", $what), "request {} killed the server ({:?}: {})", $what, s.code(), s.message().chars().take(160).collect::<String>());
+                    }
+                    // the connection broke instead of carrying a status: the request was not answered
+                    // (the server is alive: a fresh connection is used from here on)
+                    if transport && s.message().contains("transport error") {
+                        let fresh_ok = srv.tenant_client(who).ok().map(|mut c| c.health().is_ok()).unwrap_or(false);
+                        if fresh_ok {
+                            viol!(format!("request-unanswered|{}|connection-broken", $what), "request {} broke the connection instead of being answered with a status ({:?}: {}); the server is alive and answers Health on a fresh connection", $what, s.code(), s.message().chars().take(160).collect::<String>());
+                        }
                     }
                     if s.code() == tonic::Code::DeadlineExceeded {
                         viol!(format!("no-answer|{}", $what), "request {} got no answer within 60 s while the server is alive", $what);
@@ -287,11 +375,25 @@ fn run_case(seed: u64, idx: usize, bin: &str, rt: &std::sync::Arc<tokio::runtime
                 let ef = *rng.pick(&[0u32, 1, 10_000, 10_001, u32::MAX]);
                 let fc = *rng.pick(&FILTER_CLASSES);
                 let ns = if rng.chance(0.1) { "n".repeat(10_000) } else { String::new() };
-                let req = SearchRequest { query_embedding: v.clone(), k, ef_search: ef, namespace: ns, filter: if rng.chance(0.6) { Some(filter_class(fc)) } else { None }, include_embeddings: rng.chance(0.3), ..Default::default() };
-                history.push(json!({"step":step,"rpc":"Search","k":k,"ef":ef,"vector":vclass,"filter":fc}));
-                if rng.chance(0.3) {
-                    let r = cl.bulk_search(vec![req.clone(), SearchRequest { query_embedding: gen_unit_vec(&mut rng, DIM), k: 2, ..Default::default() }]);
+                let tree = rng.chance(0.4);
+                let filter = if tree { Some(gen_filter_tree(&mut rng, 3)) } else if rng.chance(0.6) { Some(filter_class(fc)) } else { None };
+                let req = SearchRequest { query_embedding: v.clone(), k, ef_search: ef, namespace: ns, filter: filter.clone(), include_embeddings: rng.chance(0.3), ..Default::default() };
+                history.push(json!({"step":step,"rpc":"Search","k":k,"ef":ef,"vector":vclass,"filter": if tree { format!("{:?}", filter).chars().take(300).collect::<String>() } else { fc.to_string() }}));
+                if rng.chance(0.4) {
+                    // a stream mixing the generated request with valid ones, in a seeded position
+                    let good = |rng: &mut Rng| SearchRequest { query_embedding: gen_unit_vec(rng, DIM), k: 2, ..Default::default() };
+                    let mut reqs = vec![good(&mut rng), good(&mut rng)];
+                    let pos = rng.usize_below(3);
+                    reqs.insert(pos, req.clone());
+                    let sent = reqs.len();
+                    let r = cl.bulk_search(reqs);
                     answered!("BulkSearch", r);
+                    if let Ok(items) = &r {
+                        // a stream that ends without a status error must carry one answer per request
+                        if items.iter().all(|i| i.is_ok()) && items.len() != sent {
+                            viol!("request-unanswered|BulkSearch", "step {}: a BulkSearch stream of {} requests (generated request at position {}) ended without error after {} answers", step, sent, pos, items.len());
+                        }
+                    }
                 } else {
                     let r = cl.search(req);
                     answered!("Search", r);
@@ -383,6 +485,26 @@ fn run_case(seed: u64, idx: usize, bin: &str, rt: &std::sync::Arc<tokio::runtime
                     }
                     _ => {
                         let fc = *rng.pick(&["depth-101", "depth-200", "not-without-operand", "empty-or", "in-100k"]);
+                        if rng.chance(0.4) {
+                            // random malformed tree: must be answered; whatever it deletes is learned by the census rule below
+                            let f = gen_filter_tree(&mut rng, 3);
+                            let r = cl.batch_delete_filter(f, "");
+                            answered!("BatchDelete(filter tree)", r);
+                            if let Ok(x) = &r {
+                                if x.deleted_count > 0 {
+                                    // learn the effect: a (possibly match-all) tree legitimately deletes documents
+                                    let ids_now: Vec<u64> = model.keys().copied().collect();
+                                    for i in ids_now {
+                                        if let Ok(q) = cl.query(i, false, "") {
+                                            if !q.found {
+                                                model.remove(&i);
+                                            }
+                                        }
+                                    }
+                                }
+                            }
+                            continue;
+                        }
                         let r = cl.batch_delete_filter(filter_class(fc), "");
                         answered!(format!("BatchDelete(filter {})", fc), r);
                         if let Ok(x) = &r {
@@ -408,6 +530,42 @@ fn run_case(seed: u64, idx: usize, bin: &str, rt: &std::sync::Arc<tokio::runtime
                 viol!("health-unanswered", "step {}: Health failed after the requests above: {:?}", step, r.err().map(|e| e.to_string()));
             }
         }
+    }
+    // filter-shape sweep: a rotating window of the enumerated small shapes through Search (unary) and
+    // BulkSearch (in a stream between two valid requests); every request must be answered
+    {
+        let shapes = enum_filter_shapes();
+        let window = 48usize;
+        let start = (idx * window) % shapes.len();
+        let q = gen_unit_vec(&mut rng, DIM);
+        for w in 0..window {
+            let si = (start + w) % shapes.len();
+            let f = shapes[si].clone();
+            let req = SearchRequest { query_embedding: q.clone(), k: 3, filter: Some(f.clone()), ..Default::default() };
+            history.push(json!({"rpc":"Search(shape)","shape_index":si,"shape":format!("{:?}", f).chars().take(200).collect::<String>()}));
+            if (w + idx / 16) % 2 == 0 {
+                let r = cl.search(req);
+                answered!("Search(filter shape)", r);
+            } else {
+                let good = SearchRequest { query_embedding: q.clone(), k: 2, ..Default::default() };
+                let r = cl.bulk_search(vec![good.clone(), req, good]);
+                answered!("BulkSearch(filter shape)", r);
+                if std::env::var("VERIF_C15_DEBUG").is_ok() {
+                    eprintln!("shape {} bulk -> {:?}", si, r.as_ref().map(|v| v.iter().map(|i| i.is_ok()).collect::<Vec<_>>()).map_err(|e| e.to_string()));
+                }
+                if let Ok(items) = &r {
+                    if items.iter().all(|i| i.is_ok()) && items.len() != 3 {
+                        viol!("request-unanswered|BulkSearch", "a BulkSearch stream of 3 requests with filter shape #{} in the middle ended without error after {} answers", si, items.len());
+                    }
+                }
+            }
+        }
+        let r = cl.health();
+        answered!("Health", r);
+        if r.is_err() {
+            viol!("health-unanswered", "Health failed after the filter-shape sweep: {:?}", r.err().map(|e| e.to_string()));
+        }
+        out.count("filter_shapes_sent", window as u64);
     }
     // oversized stream (10 001 items): must be answered, must not run away
     if rng.chance(0.1) {
@@ -440,7 +598,7 @@ fn run_case(seed: u64, idx: usize, bin: &str, rt: &std::sync::Arc<tokio::runtime
                 }
                 viol!(format!("restart-failed|{}", phase), "server does not start {}: {}", phase, e);
             }
-            cl = match srv.tenant_client("solo") {
+            cl = match srv.tenant_client(who) {
                 Ok(c) => c,
                 Err(e) => {
                     out.inconclusive(e);
@@ -476,7 +634,13 @@ fn run_case(seed: u64, idx: usize, bin: &str, rt: &std::sync::Arc<tokio::runtime
                     }
                 }
                 Err(e) => {
-                    out.inconclusive(format!("census query failed: {}", e));
+                    std::thread::sleep(std::time::Duration::from_millis(300));
+                    if phase == "live" && !srv.alive() {
+                        viol!("server-died|during-history", "the server process died during the request history (census query: {})", e);
+                    }
+                    let alive = srv.alive();
+                    let fresh = srv.tenant_client(who).ok().map(|mut c| c.health().is_ok()).unwrap_or(false);
+                    out.inconclusive(format!("census query failed (phase {}, case {}, server alive {}, fresh connection healthy {}): {}; last requests {:?}", phase, idx, alive, fresh, e, history.iter().rev().take(3).collect::<Vec<_>>()));
                     return;
                 }
             }
@@ -495,4 +659,29 @@ fn run_case(seed: u64, idx: usize, bin: &str, rt: &std::sync::Arc<tokio::runtime
     if idx % 5 == 0 {
         out.sample(json!({"case": idx, "requests": history.len(), "tail": history.iter().rev().take(4).collect::<Vec<_>>()}));
     }
+}
+
+/// debugging aid: `vh c15-probe --server <bin>` sends one BulkSearch [good, NOT(OR([{}])), good] and prints what comes back
+pub fn probe(args: &Args) {
+    let bin = args.get("server").expect("--server");
+    let rt = new_rt();
+    let cfg = SrvCfg { dim: DIM, tenants: vec![TenantSpec { id: "solo".into(), max_vectors: 1000, max_qps: 0, enabled: true, admin: false }], fsync: "data_only", ..Default::default() };
+    let mut srv = Srv::new(cfg, bin, rt);
+    srv.start().expect("start");
+    let mut cl = srv.tenant_client("solo").expect("client");
+    let mut rng = Rng::new(1);
+    let q = gen_unit_vec(&mut rng, DIM);
+    let _ = cl.insert(1, q.clone(), HashMap::new(), "");
+    let bad = MetadataFilter {
+        filter_type: Some(FilterType::NotFilter(Box::new(NotFilter {
+            filter: Some(Box::new(MetadataFilter { filter_type: Some(FilterType::OrFilter(OrFilter { filters: vec![MetadataFilter { filter_type: None }] })) })),
+        }))),
+    };
+    let good = SearchRequest { query_embedding: q.clone(), k: 2, ..Default::default() };
+    let breq = SearchRequest { query_embedding: q.clone(), k: 2, filter: Some(bad), ..Default::default() };
+    println!("unary: {:?}", cl.search(breq.clone()).map(|r| r.results.len()));
+    let r = cl.bulk_search(vec![good.clone(), breq, good.clone()]);
+    println!("bulk: {:?}", r.map(|v| v.into_iter().map(|i| i.map(|x| x.results.len()).map_err(|e| format!("{:?}: {}", e.code(), e.message()))).collect::<Vec<_>>()));
+    println!("health after: {:?}", cl.health().map(|h| h.status));
+    println!("term: {:?}", srv.term());
 }
